@@ -1,12 +1,13 @@
 (* C05 -- property theorems only (each closed by `exact <lemma>`).  Subjects: model/M_C05_SPG.v at T := R (project,
-   project_onto_tr with brentq's answer as an arbitrary value, the SPG step length built from the line-search kernels
-   regenerated from optimism/TrustRegionSPG.py, the outer loop with arbitrary objective oracles and arbitrary step proposals).
+   project_onto_tr with brentq's answer as an arbitrary value, the SPG step length built from the line-search and clip kernels
+   regenerated from optimism/TrustRegionSPG.py, the outer loop with arbitrary objective oracles and arbitrary step proposals)
+   and model/M_C05_Full.v (the COMPLETE solver: Cauchy search + SPG sub-problem solve + outer loop, no proposal oracle).
    Bounds: (Some l | None, Some u | None), None = infinite.  wf_box: l <= u wherever both are finite. *)
 From Coq Require Import Reals List.
 From OV.base Require Import Num.
 From OV.gen Require Import Gen_TrustRegionSPG.
-From OV.model Require Import M_C06_Vec M_C06_CG M_C01_TR M_C05_SPG.
-From OV.proofs Require Import L_C06_Vec L_C01 L_C05.
+From OV.model Require Import M_C06_Vec M_C06_CG M_C01_TR M_C05_SPG M_C05_Full.
+From OV.proofs Require Import L_C06_Vec L_C01 L_C05 L_C05_Full.
 Import ListNotations.
 Local Open Scope R_scope.
 
@@ -47,11 +48,48 @@ Proof. exact nonmonotone_kernel_nonneg. Qed.
 Theorem C05_monotone_alpha_can_be_negative_refuted :
   exists ds sBs q qMax, 0 < sBs /\ q <= qMax /\ @kouri_exact_line_search R NumR ds sBs q qMax 0 < 0.
 Proof. exact monotone_alpha_negative. Qed.
-(* NOT PROVED: "every iterate is feasible" as ONE theorem about the whole solver: find_generalized_cauchy_point and the SPG
-   loop (qHistory, spectral step) are not modelled; the theorems above are the pieces of the convex-combination argument
-   (Cauchy point = projection; updates = convex combinations; clipped alpha in [0,1]).  The clip expression is hand-modelled
-   (clip01) and matched syntactically against the source by the harness.  Feasibility of every reported iterate is checked
-   on the implementation by the harness (L2, 4 ulp slack) -- a test. *)
+(* the clip statement and the box projection are kernels REGENERATED from the source (no hand kernel any more): spg_alpha above
+   is spg_step_clip (generated from `alpha = min(1.0, max(0.0, alpha)) if sBs > 0 else 1.0`) applied to the generated line
+   search; the list model's clamp is the generated project kernel *)
+Theorem C05_generated_clip_is_clip : forall a sBs, @spg_step_clip R NumR a sBs = if Rlt_dec 0 sBs then Rmin 1 (Rmax 0 a) else 1.
+Proof. exact spg_step_clip_spec. Qed.
+Theorem C05_clamp_is_generated_project : forall x l u, @clamp R NumR x (Some l, Some u) = @project_n1 R NumR x l u.
+Proof. exact clamp_is_generated. Qed.
+Theorem C05_project_is_generated_n3 : forall x0 x1 x2 l0 u0 l1 u1 l2 u2,
+  @project R NumR [x0; x1; x2] [(Some l0, Some u0); (Some l1, Some u1); (Some l2, Some u2)] =
+  let '(a, b, c) := @project_n3 R NumR x0 x1 x2 l0 u0 l1 u1 l2 u2 in [a; b; c].
+Proof. exact project_is_generated_n3. Qed.
+
+(* "EVERY ITERATE OF THE WHOLE SOLVER IS FEASIBLE" as one theorem about the COMPLETE model (model/M_C05_Full.v:
+   find_generalized_cauchy_point with its three loops, solve_spg_subproblem with qHistory / spectral step / both line searches /
+   the generated clip, the outer loop calling them): for ARBITRARY value / gradient / Hessian-vector oracles that preserve the
+   vector length, for EVERY sequence of root-finder answers `brent`, every settings record and every feasible start, every point
+   in the trace -- each x+z whose sub-problem optimality is evaluated (the Cauchy point and every SPG iterate), each trial point
+   y = x+s, each point passed to callback / update_precond / returned -- is in the box, and so is the returned point. *)
+Theorem C05_every_iterate_feasible : forall (value : list R -> R) (grad : list R -> list R) (hessvec : list R -> list R -> list R)
+    (brent : nat -> R) (bs : list (@bound R)) (S : settings R) (G : spg_settings R),
+  wf_box bs ->
+  (forall x, length x = length bs -> length (grad x) = length bs) ->
+  (forall x v, length x = length bs -> length v = length bs -> length (hessvec x v) = length bs) ->
+  forall x0, in_box bs x0 ->
+  let '(res, tr) := @full_minimize R NumR value grad hessvec brent bs S G x0 in
+  Forall (fev_feasible bs) tr /\ (forall xr flag, res = Some (xr, flag) -> in_box bs xr).
+Proof. exact full_minimize_feasible. Qed.
+(* flag clause for the complete model, no hypothesis at all: success is only reported at the last event of the trace, a
+   ConvergedAt event at the returned point, whose projected-gradient measure is below tol *)
+Theorem C05_flag_honest_complete_model : forall (value : list R -> R) (grad : list R -> list R) (hessvec : list R -> list R -> list R)
+    (brent : nat -> R) (bs : list (@bound R)) (S : settings R) (G : spg_settings R) x0,
+  let '(res, tr) := @full_minimize R NumR value grad hessvec brent bs S G x0 in
+  forall xr, res = Some (xr, true) ->
+    @optimality R NumR xr (grad xr) bs < s_tol S /\
+    (tr = [FOut (EConvergedInit xr)] \/ exists tr', tr = tr' ++ [FOut (EConverged xr)]).
+Proof. exact full_minimize_flag. Qed.
+(* NOT PROVED: the same over binary64 (y = x + z is a rounded addition: a bound can be exceeded by an ulp; L2 allows 4 ulp and
+   reports the worst excess); the trust-region half of "feasible" (|x+z - x| <= trSize) for the SPG iterates: it needs the
+   root finder's answer to satisfy f(t) <= 0 (C05_project_tr_in_both) AND convexity of the ball, not attempted.
+   Runs that end in the documented RuntimeError of the Cauchy search or outside the model's range (max_spg_iters = 0:
+   NameError in python; cauchy_point_max_line_search_iters = 0) have result None: the theorem then only speaks about the
+   points formed before. *)
 
 (* outer loop, ARBITRARY value/gradient oracles and ARBITRARY step proposals: descent on accepted iterates (default mode,
    eta1 >= 0), flag = true only at a ConvergedAt event at the returned point whose projected-gradient measure is < tol,
@@ -82,9 +120,17 @@ Example C05_nonvacuous :
   wf_box [(Some 0, Some 1); (None, Some 2); (Some 3, Some 3); (None, None)] /\
   in_box [(Some 0, Some 1); (None, Some 2); (Some 3, Some 3); (None, None)] [1/2; -5; 3; 7].
 Proof. exact example_box. Qed.
+Example C05_every_iterate_feasible_nonvacuous :
+  let b := [(Some 0, Some 1); (None, Some 2); (Some 3, Some 3); (None, None)] in
+  wf_box b /\ in_box b [1/2; -5; 3; 7] /\
+  (forall x : list R, length x = length b -> length ((fun y : list R => y) x) = length b) /\
+  (forall x v : list R, length x = length b -> length v = length b -> length ((fun (_ y : list R) => y) x v) = length b).
+Proof. exact example_full_hypotheses. Qed.
 
 Print Assumptions C05_project_nearest.
 Print Assumptions C05_project_tr_in_both.
 Print Assumptions C05_spg_step_feasible.
+Print Assumptions C05_every_iterate_feasible.
+Print Assumptions C05_flag_honest_complete_model.
 Print Assumptions C05_trace_properties.
 Print Assumptions C05_convex_pg_zero_is_min.
